@@ -4,6 +4,7 @@ package c10
 import (
 	stdjson "encoding/json"
 	"fmt"
+	jlib "github.com/jsightapi/jsight-schema-go-library"
 	"strings"
 	"time"
 
@@ -99,7 +100,24 @@ func run(c *ev.Ctx) {
 		c.Cap("hook_unavailable: unit-level half skipped")
 	}
 	apiLevel(c, Ldoc)
+	guessLevel(c, Ldoc)
 	longFamily(c)
+}
+
+// zeroMantissaExp: the numerals of the recorded finding (a zero mantissa followed by an exponent). Reductions
+// never step from outside this class into it: a new defect must not be reduced to the recorded core.
+func zeroMantissaExp(s string) bool {
+	s = strings.TrimPrefix(s, "-")
+	i := strings.IndexAny(s, "eE")
+	if i < 0 {
+		return false
+	}
+	for _, c := range s[:i] {
+		if c != '0' && c != '.' {
+			return false
+		}
+	}
+	return true
 }
 
 // numeralCands lists one-step simplifications of a numeral (all numerals).
@@ -199,7 +217,24 @@ func forms() []ruleForm {
 				p := int(a[0] - '0')
 				return d.FracLen() <= p, true
 			}},
+		// "counts as integer" where the decision is taken by the root package's GuessSchemaType (the type
+		// of an additional property) instead of the validator's own guess
+		{"additionalProperties:integer", none, "", func(string) string { return "{ // {additionalProperties: \"integer\"}\n}" },
+			func(_ string, d decimal.Dec, doc string) (bool, bool) {
+				if strings.Contains(doc, ".") && !strings.ContainsAny(doc, "eE") && d.IsIntegral() {
+					return false, false // 1.0: not asserted
+				}
+				return d.IsIntegral(), true
+			}},
 	}
+}
+
+// docText is the document that carries numeral d under form f.
+func docText(form, d string) string {
+	if strings.HasPrefix(form, "additionalProperties") {
+		return `{"a":` + d + `}`
+	}
+	return d
 }
 
 func apiLevel(c *ev.Ctx, Ldoc int) {
@@ -228,7 +263,7 @@ func apiLevel(c *ev.Ctx, Ldoc int) {
 			c.Inc("api_schemas")
 			for i, d := range docs {
 				want, asserted := f.accept(a, ddec[i], d)
-				res := lib.Validate(s, d)
+				res := lib.Validate(s, docText(f.name, d))
 				c.Eval(true)
 				if !asserted {
 					c.Inc("api_unasserted")
@@ -240,6 +275,74 @@ func apiLevel(c *ev.Ctx, Ldoc int) {
 			}
 		}
 	}
+}
+
+// guessLevel: the public jschema.GuessSchemaType on every numeral: integer iff the value is integral (dotted
+// numerals without exponent such as 1.0 are not asserted), float otherwise - whatever the spelling.
+func guessLevel(c *ev.Ctx, L int) {
+	for i, d := range numerals(L) {
+		if i%c.NShards != c.Shard {
+			continue
+		}
+		dd, _ := decimal.Parse(d)
+		if strings.Contains(d, ".") && !strings.ContainsAny(d, "eE") && dd.IsIntegral() {
+			continue
+		}
+		want := "float"
+		if dd.IsIntegral() {
+			want = "integer"
+		}
+		bad, desc := guessEval(d)
+		c.Eval(true)
+		c.Inc("guess_schema_type_numerals")
+		if bad {
+			_ = want
+			// the reduction keeps the KIND of failure (an error is one defect, a wrong type another)
+			dir := guessDir(d)
+			red := ev.Reduce(d, numeralCands, func(x string) bool {
+				b, _ := guessEval(x)
+				return b && guessDir(x) == dir && zeroMantissaExp(x) == zeroMantissaExp(d)
+			})
+			_, desc = guessEval(red)
+			c.Violate("guess;"+red, desc, caseT{Kind: "guess", A: red})
+		}
+	}
+}
+
+// guessDir: what GuessSchemaType answers for d ("error" or the type name).
+func guessDir(d string) string {
+	var got string
+	res := lib.Guard(func() error {
+		t, err := jlib.GuessSchemaType([]byte(d))
+		got = string(t)
+		return err
+	})
+	if !res.OK {
+		return "error"
+	}
+	return got
+}
+
+// guessEval: does GuessSchemaType mis-type numeral d?
+func guessEval(d string) (bool, string) {
+	dd, ok := decimal.Parse(d)
+	if !ok || (strings.Contains(d, ".") && !strings.ContainsAny(d, "eE") && dd.IsIntegral()) {
+		return false, ""
+	}
+	want := "float"
+	if dd.IsIntegral() {
+		want = "integer"
+	}
+	var got string
+	res := lib.Guard(func() error {
+		t, err := jlib.GuessSchemaType([]byte(d))
+		got = string(t)
+		return err
+	})
+	if !res.OK || got != want {
+		return true, fmt.Sprintf("GuessSchemaType(%q) = %q (%s), the exact value %s makes it %s", d, got, res, dd, want)
+	}
+	return false, ""
 }
 
 // apiEval evaluates (form, bound, document); returns violating?, direction, description.
@@ -263,7 +366,7 @@ func apiEval(form, a, d string) (bool, string, string, string) {
 	if !asserted {
 		return false, "", "", text
 	}
-	res := lib.Validate(s, d)
+	res := lib.Validate(s, docText(f.name, d))
 	if res.Panic != "" {
 		return true, "panic", fmt.Sprintf("schema %q: document %s panics: %s", text, d, res.Panic), text
 	}
@@ -276,8 +379,25 @@ func apiEval(form, a, d string) (bool, string, string, string) {
 
 type apiCase struct{ form, a, d string }
 
+// apiCode: the error code of the library's verdict on (form, bound, document): two rejections with different
+// codes are different defects, and the reduction must not walk from one into the other (a recorded finding
+// would otherwise swallow a new one).
+func apiCode(form, a, d string) int {
+	for _, f := range forms() {
+		if f.name == form {
+			s, r := lib.Check(lib.SchemaSpec{Text: f.schema(a)})
+			if !r.OK {
+				return -1
+			}
+			return lib.Validate(s, docText(form, d)).Code
+		}
+	}
+	return -2
+}
+
 func reportAPI(c *ev.Ctx, form, a, d string) {
 	_, dir, _, _ := apiEval(form, a, d)
+	code := apiCode(form, a, d)
 	red := ev.Reduce(apiCase{form, a, d}, func(x apiCase) []apiCase {
 		var out []apiCase
 		for _, f := range forms() {
@@ -303,10 +423,10 @@ func reportAPI(c *ev.Ctx, form, a, d string) {
 		return out
 	}, func(x apiCase) bool {
 		bad, d2, _, _ := apiEval(x.form, x.a, x.d)
-		return bad && d2 == dir
+		return bad && d2 == dir && apiCode(x.form, x.a, x.d) == code && zeroMantissaExp(x.d) == zeroMantissaExp(d)
 	})
 	_, _, desc, text := apiEval(red.form, red.a, red.d)
-	c.Violate(fmt.Sprintf("api;%s;%s;%s;%s", red.form, red.a, red.d, dir), desc, caseT{Kind: "api", Schema: text, A: red.a, B: red.d})
+	c.Violate(fmt.Sprintf("api;%s;%s;%s;%s", red.form, red.a, red.d, dir), desc, caseT{Kind: "api", Schema: text, A: red.a, B: docText(red.form, red.d)})
 }
 
 func verdictWord(r lib.Res) string {
@@ -431,6 +551,9 @@ func replay(raw stdjson.RawMessage) (bool, string) {
 		}
 		res := lib.Validate(s, cs.B)
 		return true, fmt.Sprintf("schema %q document %s: %s (replay shows the library's verdict; compare with exact arithmetic)", cs.Schema, cs.B, res)
+	}
+	if cs.Kind == "guess" {
+		return guessEval(cs.A)
 	}
 	return replayUnit(cs)
 }
